@@ -59,7 +59,7 @@ _io_op = st.one_of(
     st.fixed_dictionaries({'k': st.just('nothing')}),
 )
 _script = st.lists(st.one_of(_io_op, _io_op, st.fixed_dictionaries({'k': st.just('loop'), 'n': st.integers(0, 3), 'body': st.lists(_io_op, max_size=2)}),
-                             st.fixed_dictionaries({'k': st.just('raise')})), max_size=5)
+                             st.fixed_dictionaries({'k': st.just('raise')}), st.fixed_dictionaries({'k': st.just('interrupt')})), max_size=5)
 
 _state = {}
 
@@ -97,6 +97,8 @@ def render(script, indent=''):
             lines.append('%s_unused = 1' % indent)
         elif k == 'raise':
             lines.append("%sraise ValueError('scripted')" % indent)
+        elif k == 'interrupt':
+            lines.append("%sraise KeyboardInterrupt" % indent)
         elif k == 'loop':
             lines.append('%sfor _i in range(%d):' % (indent, op['n']))
             lines.append(render(op['body'], indent + '    ') or (indent + '    pass'))
@@ -124,7 +126,7 @@ class Model:
                 elif k == 'input':
                     text.append(str(op['prompt']) + cal['suffix'])
                     used.append(self.queue.pop(0) if self.queue else cal['default'])
-                elif k == 'raise':
+                elif k in ('raise', 'interrupt'):
                     return True
                 elif k == 'loop':
                     for _ in range(op['n']):
@@ -249,10 +251,18 @@ class Stepper:
                 t, used, raised = self.model.execute(op['script'])
                 if len(used) > n_inputs:
                     self.flags_pending.add('exhausted')
-                if op['inputs'] is not None:
-                    sb.run(code, filename='answer.py', inputs=list(op['inputs']))
-                else:
-                    sb.run(code, filename='answer.py')
+                interrupted = any(o['k'] == 'interrupt' for o in op['script']) or any(o['k'] == 'interrupt' for l in op['script'] if l['k'] == 'loop' for o in l['body'])
+                try:
+                    if op['inputs'] is not None:
+                        sb.run(code, filename='answer.py', inputs=list(op['inputs']))
+                    else:
+                        sb.run(code, filename='answer.py')
+                except KeyboardInterrupt:
+                    # not the sandbox's to report: it reaches the grader; what was written before it is recorded all the same
+                    if not interrupted:
+                        raise
+                    raised = False
+                    self.flags.add('interrupted-execution')
                 what = 'run(%d ops)' % len(op['script'])
                 self.after_execution(t, used, viol, what)
                 got = sb.data.get('_got')
@@ -302,6 +312,14 @@ class Stepper:
                     self.flags_pending.add('exhausted')
                 what = 'call(%s)' % f
                 self.after_execution(t, used, viol, what)
+                if is_sandbox_result(r):
+                    try:
+                        linked = sb.get_context(r._actual_context_id)[-1]
+                    except Exception as e:
+                        linked = None
+                        viol.append(V('C15|result-record|raises', '%s: looking up the execution record of the result raised %r' % (what, e)))
+                    if linked is not None and linked is not sb._context[-1]:
+                        viol.append(V('C15|result-record|wrong-execution', '%s: the result is linked to the record of %r, not to its own execution' % (what, linked.code[:40])))
                 if expect is not None:
                     val = r._actual_value if is_sandbox_result(r) else r
                     if val != expect:
